@@ -76,6 +76,12 @@ func (m *Model) Layout() {
 				Character: char,
 				Style:     seg.Style,
 			}
+			if col > 0 && col+char.Width > m.width {
+				// This character does not fit on the line anymore
+				m.lines = append(m.lines, l)
+				l = &line{}
+				col = 0
+			}
 			l.append(cell)
 			col += char.Width
 			if col >= m.width {
